@@ -127,7 +127,14 @@ class ProducerWorld(ClientWorld):
                 s.d.cancel()
         elif kind == "stop":
             self.stop_called_step = self.step
+            n_calls, n_reqs = len(self.calls), len(self.produce_reqs)
             d = self.producer.stop()
+            if self.PROP == "C19" and (len(self.calls) > n_calls or len(self.produce_reqs) > n_reqs):
+                self.viol("stop", "batch-dispatched-during-stop",
+                          "stop() handed %d new batch(es) to the client and %d produce request(s) reached the wire "
+                          "while it was running (sends involved: %r)" % (
+                              len(self.calls) - n_calls, len(self.produce_reqs) - n_reqs,
+                              [c[2] for c in self.calls[n_calls:]]))
 
             def fired(res):
                 self.stop_d_fired += 1
